@@ -749,6 +749,18 @@ func checkBurnAccountBlocked(p *Prog, r *Report, kp func(string, string) string,
 		r.Check(okB, kp("WIRE", "BlockedAddresses∌burn-module"), "the burn module account's address is blocked for incoming transfers and account creation", p.FnPos(ba),
 			fmt.Sprintf("addresses removed from the blocked set: %v", unblocked),
 			fmt.Sprintf("BlockedAddresses unblocks %v: a plain account can be created at the burn module's address before the first burn, after which auth.GetModuleAccount panics inside every burn", unblocked))
+		// … and the only module account taken off the blocked set is one that is built to receive deposits: gov. Coins sent
+		// straight to any other module account (distribution, the staking pools, mint, the fee collector) break that module's
+		// registered account invariant, which x/crisis halts the chain on.
+		govC, _ := p.ConstVal(SDK+"/x/gov/types", "ModuleName")
+		var other []string
+		for _, u := range unblocked {
+			if u != strings.Trim(govC, `"`) && u != "?" {
+				other = append(other, u)
+			}
+		}
+		r.Check(len(other) == 0, kp("WIRE", "BlockedAddresses#only-gov-unblocked"), "only the gov module account is taken off the blocked set (the registered module-account invariants of the others do not survive direct deposits)", p.FnPos(ba),
+			fmt.Sprintf("unblocked: %v", unblocked), fmt.Sprintf("BlockedAddresses also unblocks %v: a plain transfer to that module account is accepted and its module's registered invariant fails at the next crisis check — the chain halts", other))
 		r.Floor("control:exceptions-in-BlockedAddresses", nDel+nConst, 1)
 		passed := false
 		if newFn := p.Func(Rel("app"), "New"); newFn != nil {
